@@ -46,10 +46,14 @@ func (f *Forward) Forward(ctx context.Context, name string, args []interface{}) 
 	clientContext.Timeout = f.Timeout
 	if serviceContext.HasRequestHeaders() {
 		serviceContext.RequestHeaders().CopyTo(clientContext.RequestHeaders())
+		// "simple" says how the message it came with was encoded; the call is encoded
+		// anew here, by this client's codec, which sets the header itself if it applies
+		clientContext.RequestHeaders().Del("simple")
 	}
 	result, err = f.client.InvokeContext(core.WithContext(ctx, clientContext), name, args)
 	if clientContext.HasResponseHeaders() {
 		clientContext.ResponseHeaders().CopyTo(serviceContext.ResponseHeaders())
+		serviceContext.ResponseHeaders().Del("simple")
 	}
 	return
 }
